@@ -285,3 +285,400 @@ rewrite /local_cost /lcost /assignment_costs /allowed -map_comp => h.
 exact: (isSome_ominl_somes (fun ag => ag.2 + flip_cost (mk_cc I c t).1 (colents I c) x ag.1) h).
 Qed.
 End Tables.
+
+(* ------------------------------------------------------------------ the executable DP is SemiringDP.run *)
+Section DP.
+Variable I : inst.
+Hypothesis Hs : sorted_reads I.
+Hypothesis Hl : forall i, i < nreads I -> r_last (rd I i) < i_ncols I.
+Let n := i_ncols I.
+
+Definition Lc c : seq bool -> nat -> option nat := fun x t => local_cost I c x t.
+Definition Tc c : nat -> nat -> option nat := fun t' t => Some (trans_cost I c t' t).
+Definition mkcol c : col (option nat) := Col (nnew I c) (Lc c) (Tc c) (fmask I c).
+Definition cols : seq (col (option nat)) := [seq mkcol c | c <- iota 0 n].
+Definition ini : nat -> option nat := fun _ => Some 0.
+Definition St c : st (option nat) := run tmin_addoid (nT I) ini (take c cols).
+
+Lemma St_step c : c < n -> St c.+1 = step tmin_addoid (nT I) (St c) (mkcol c).
+Proof.
+move=> hc; rewrite /St (take_nth (mkcol 0)) ?size_map ?size_iota //.
+by rewrite /run -cats1 foldl_cat /= (nth_map 0) ?size_iota // nth_iota // add0n.
+Qed.
+
+Lemma seen0 : seen I 0 = 0.
+Proof. by rewrite /seen (@eq_count _ _ pred0) ?count_pred0. Qed.
+Lemma kept0 : kept I 0 = [::].
+Proof. by rewrite /kept (@eq_filter _ _ pred0) ?filter_pred0. Qed.
+
+Lemma St_shape c : c <= n -> sm (St c) = seen I c /\ sS (St c) = kept I c.
+Proof.
+elim: c => [|c IH] hc; first by rewrite /St take0 /= seen0 kept0.
+case: (IH (ltnW hc)) => h1 h2; rewrite St_step //= h1 h2 seenS; split=> //.
+by rewrite /act -active_split // kept_mask.
+Qed.
+
+Definition tab_ok c (prev : table) : Prop :=
+  forall sigma t, size sigma = size (kept I c) -> t < nT I -> tlook prev sigma t = sP (St c) sigma t.
+
+Lemma tab_ok0 : tab_ok 0 (prev0 I).
+Proof.
+move=> sigma t; rewrite kept0 /= => /size0nil-> ht.
+by rewrite /tlook /= nth_nseq ht /St take0.
+Qed.
+
+Definition Dc c : seq bool -> nat -> option nat :=
+  D tmin_addoid (nT I) (kept I c) (sP (St c)) (Lc c) (Tc c).
+
+Lemma dp_columnE c prev : tab_ok c prev ->
+  dp_column I c (local_rows I c) prev = mktab I (bvs (size (active I c))) (Dc c).
+Proof.
+move=> hprev; rewrite local_rowsE /dp_column /mktab -map_comp.
+apply/eq_in_map => x; rewrite mem_bvs => /eqP hx /=; congr pair.
+apply/eq_in_map => t; rewrite mem_iota add0n /= => ht.
+rewrite nth_ts // /Dc /D /= /Lc; congr tadd.
+rewrite ominl_map; apply: eq_big_seq => t'; rewrite mem_iota add0n /= => ht'.
+rewrite -/(tlook prev _ t') hprev // ?bw_kept //.
+rewrite size_take hx size_active //; case: ltnP => // h; apply/eqP; by rewrite eqn_leq h leq_addr.
+Qed.
+
+Lemma projectE c g :
+  project I c (mktab I (bvs (size (active I c))) g) =
+  mktab I (bvs (size (kept I c.+1)))
+    (fun s t => \big[tmin/None]_(x <- bits (size (kept I c) + nnew I c) | mask (fmask I c) x == s) g x t).
+Proof.
+rewrite /project fmask_count /mktab; apply: eq_map => s; congr pair.
+apply/eq_in_map => t; rewrite mem_iota add0n /= => ht.
+rewrite -/(mktab I (bvs (size (active I c))) g).
+rewrite (map_mktab_filter _ g (fun x => mask (fmask I c) x == s) ht).
+by rewrite ominl_map_filter bvsE size_active.
+Qed.
+
+Lemma tab_ok_step c prev : c < n -> tab_ok c prev ->
+  tab_ok c.+1 (project I c (dp_column I c (local_rows I c) prev)).
+Proof.
+move=> hc hprev sigma t hs ht.
+rewrite dp_columnE // projectE tlook_mktab ?mem_bvs ?hs //.
+rewrite St_step //= /P'.
+by case: (St_shape (ltnW hc)) => _ ->.
+Qed.
+
+Lemma final_ok c prev : c.+1 = n -> tab_ok c prev ->
+  ominl [seq ominl e.2 | e <- dp_column I c (local_rows I c) prev] = dp_total tmin_addoid (nT I) (St n).
+Proof.
+move=> hc hprev; rewrite dp_columnE // ominl_mktab /dp_total.
+have hcn : c < n by rewrite -hc.
+case: (St_shape (leqnn n)) => _ ->; rewrite kept_last //= bits0 big_seq1.
+rewrite -hc St_step //= /P'.
+case: (St_shape (ltnW hcn)) => _ ->.
+rewrite exchange_big /= bvsE size_active //; apply: eq_bigr => t _.
+rewrite [RHS]big_mkcond /=; apply: eq_big_seq => x; rewrite mem_bitsE => /eqP hx.
+have -> : mask (fmask I c) x = [::]; last by [].
+apply: size0nil; rewrite size_mask ?fmask_count ?hc ?kept_last //.
+by rewrite size_map hx size_active.
+Qed.
+
+Hypothesis Hnc : no_conflict I.
+
+Lemma no_conflict_in c : c < n -> conflict_in (local_rows I c) = false.
+Proof.
+move=> hc; rewrite local_rowsE conflict_mktab; apply/negbTE/hasPn => x _.
+move/allP: Hnc => /(_ c); rewrite mem_iota add0n => /(_ hc) /hasP[t ht hal].
+rewrite -has_predC; apply/hasP; exists t => //=.
+by rewrite negbK; apply: local_cost_some.
+Qed.
+
+Lemma dp_loop_ok k c prev : c + k.+1 = n -> tab_ok c prev ->
+  dp_loop I (iota c k.+1) prev = Cost (dp_total tmin_addoid (nT I) (St n)).
+Proof.
+elim: k c prev => [|k IH] c prev hck hprev.
+  rewrite /= no_conflict_in; last by rewrite -hck addn1.
+  by rewrite final_ok // -hck addn1.
+have hc : c < n by rewrite -hck -addSnnS ltn_addr.
+rewrite [iota c _]/= [dp_loop _ _ _]/= no_conflict_in //.
+by apply: IH; [rewrite addSnnS | apply: tab_ok_step].
+Qed.
+
+Lemma take_cols : St n = run tmin_addoid (nT I) ini cols.
+Proof. by rewrite /St take_oversize // size_map size_iota. Qed.
+
+Lemma dp_cost_total : 0 < n -> dp_cost I = Cost (dp_total tmin_addoid (nT I) (run tmin_addoid (nT I) ini cols)).
+Proof.
+rewrite -take_cols /dp_cost -/n; case: n (@dp_loop_ok) => // m H _.
+by apply: H; [rewrite add0n | exact: tab_ok0].
+Qed.
+End DP.
+
+(* ------------------------------------------------------------------ expansion of sF into the explicit objective *)
+Lemma oaddl_map (A : Type) (h : A -> option nat) (s : seq A) :
+  oaddl [seq h a | a <- s] = \big[tadd/Some 0]_(a <- s) h a.
+Proof. by rewrite /oaddl foldrE big_map. Qed.
+
+Lemma hamming_refl nb t : hamming nb t t = 0.
+Proof. by elim: nb t => [|nb IH] t //=; rewrite eqxx IH. Qed.
+
+Lemma big_tmin_zero (s : seq nat) (g : nat -> nat) t :
+  t \in s -> g t = 0 -> \big[tmin/None]_(t' <- s) Some (g t') = Some 0.
+Proof.
+move=> hin hg; elim: s hin => [|a s IH] //; rewrite inE big_cons.
+case: (t =P a) => [<- _|_ /= /IH->]; last by rewrite /= minn0.
+by rewrite hg; case: (\big[tmin/None]_(j <- s) _) => [b|] //=; rewrite min0n.
+Qed.
+
+Section Expand.
+Variable I : inst.
+Hypothesis Hs : sorted_reads I.
+Hypothesis Hl : forall i, i < nreads I -> r_last (rd I i) < i_ncols I.
+Let n := i_ncols I.
+
+Lemma sF_step c beta t : c < n ->
+  sF (St I c.+1) beta t =
+  tadd (local_cost I c (restrict (active I c) beta) t)
+       (\big[tmin/None]_(t' <- iota 0 (nT I)) tadd (sF (St I c) beta t') (Some (trans_cost I c t' t))).
+Proof.
+move=> hc; rewrite St_step //= /F' /=.
+case: (St_shape Hs (ltnW hc)) => -> ->.
+by rewrite /act -active_split.
+Qed.
+
+Lemma nth_rcons_lt (p : seq nat) t c : c < size p -> nth 0 (rcons p t) c = nth 0 p c.
+Proof. by move=> h; rewrite nth_rcons h. Qed.
+
+Lemma term_rcons beta p t c : c < size p -> term I beta (rcons p t) c = term I beta p c.
+Proof.
+move=> hc; rewrite /term nth_rcons_lt //; case: c hc => [|c] hc //.
+by rewrite nth_rcons_lt // ltnW.
+Qed.
+
+Lemma term_last beta p t' t : term I beta (rcons (rcons p t') t) (size p).+1 =
+  tadd (Some (trans_cost I (size p).+1 t' t)) (local_cost I (size p).+1 (restrict (active I (size p).+1) beta) t).
+Proof.
+rewrite /term !nth_rcons !size_rcons ltnn eqxx ltnS leqnn ltnn eqxx.
+by [] .
+Qed.
+
+Lemma sF_expand j beta t : j < n -> t < nT I ->
+  sF (St I j.+1) beta t =
+  \big[tmin/None]_(p <- tuples (nT I) j) \big[tadd/Some 0]_(c <- iota 0 j.+1) term I beta (rcons p t) c.
+Proof.
+elim: j t => [|j IH] t hj ht.
+  rewrite sF_step // /= big_seq1 /= big_seq1 /term /= /St take0 /= /ini.
+  rewrite (@big_tmin_zero _ (fun t' => 0 + trans_cost I 0 t' t) t) ?mem_iota ?add0n //; last first.
+    by rewrite /trans_cost hamming_refl.
+  by rewrite taddx1; case: (local_cost _ _ _ _).
+rewrite sF_step //.
+transitivity (\big[tmin/None]_(p <- tuples (nT I) j) \big[tmin/None]_(t' <- iota 0 (nT I))
+               tadd (\big[tadd/Some 0]_(c <- iota 0 j.+1) term I beta (rcons p t') c)
+                    (tadd (Some (trans_cost I j.+1 t' t))
+                          (local_cost I j.+1 (restrict (active I j.+1) beta) t))).
+  rewrite exchange_big /= big_distrr /=; apply: eq_big_seq => t'; rewrite mem_iota add0n /= => ht'.
+  rewrite IH // ?(ltnW hj) // big_distrl /= big_distrr /=; apply: eq_bigr => p _.
+  by rewrite taddC -taddA.
+rewrite [tuples _ j.+1]/= big_allpairs_dep.
+apply: eq_big_seq => p; rewrite mem_tuples => /andP[/eqP hp _].
+apply: eq_bigr => t' _.
+rewrite -[in RHS]addn1 iotaD big_cat big_seq1 add0n.
+rewrite -[in X in term _ _ _ X]hp term_last hp; congr tadd.
+apply: eq_big_seq => c; rewrite mem_iota add0n /= => hc.
+by rewrite [RHS]term_rcons // size_rcons hp.
+Qed.
+
+Lemma total_expand : 0 < n ->
+  \big[tmin/None]_(beta <- bits (nreads I)) \big[tmin/None]_(t <- iota 0 (nT I)) sF (St I n) beta t
+  = opt_spec I.
+Proof.
+rewrite /opt_spec /cost_of ominl_map bvsE -/n; case: n (@sF_expand) => // m H _.
+apply: eq_bigr => beta _; rewrite ominl_map [tuples _ _]/= big_allpairs_dep /= exchange_big /=.
+apply: eq_big_seq => t; rewrite mem_iota add0n /= => ht.
+rewrite H //; apply: eq_bigr => p _.
+by rewrite oaddl_map [LHS]/= big_cons.
+Qed.
+End Expand.
+
+Lemma ominl_const0 (A : Type) (s : seq A) : s <> [::] -> ominl [seq Some 0 | _ <- s] = Some 0.
+Proof. by elim: s => [|a [|b s] IH] // _; rewrite /= in IH *; rewrite IH. Qed.
+
+(* ------------------------------------------------------------------ dp_cost_optimal *)
+Lemma wf_last I : wf I -> forall i, i < nreads I -> r_last (rd I i) < i_ncols I.
+Proof.
+rewrite /wf /wf_reads => /andP[/andP[/andP[_ /(all_nthP dflt_read) h] _] _] i hi.
+by have /andP[/andP[_ ->] _] := h _ hi.
+Qed.
+
+Lemma wf_sorted I : wf I -> sorted_reads I.
+Proof. by rewrite /wf /wf_reads => /andP[/andP[/andP[-> _] _] _]. Qed.
+
+Theorem dp_cost_optimal I : wf I -> no_conflict I -> dp_cost I = Cost (opt_spec I).
+Proof.
+move=> hwf hnc; have Hs := wf_sorted hwf; have Hl := wf_last hwf.
+case: (posnP (i_ncols I)) => [h0|hpos].
+  rewrite /dp_cost /opt_spec /cost_of h0 /=; congr Cost.
+  rewrite (@ominl_const0 _ (bvs (nreads I))) //.
+  have: nseq (nreads I) false \in bvs (nreads I) by rewrite mem_bvs size_nseq.
+  by case: (bvs _).
+rewrite dp_cost_total // dp_total_spec -take_cols.
+case: (St_shape Hs (leqnn (i_ncols I))) => -> _; rewrite seen_last //.
+by congr Cost; apply: total_expand.
+Qed.
+
+(* ------------------------------------------------------------------ alleles_non_tie_forced *)
+Lemma ole_anti x y : ole x y -> ole y x -> x = y.
+Proof. by case: x y => [a|] [b|] //= h1 h2; congr Some; apply/eqP; rewrite eqn_leq h1 h2. Qed.
+
+Lemma ominl_min_attained (A : eqType) (cost : A -> nat) (s : seq A) a :
+  a \in s -> (forall b, b \in s -> cost a <= cost b) ->
+  ominl [seq Some (cost b) | b <- s] = Some (cost a).
+Proof.
+move=> ha hmin; apply: ole_anti.
+  by apply: ole_ominl_mem; apply/mapP; exists a.
+by apply: ominl_glb => y /mapP[b hb ->] /=; apply: hmin.
+Qed.
+
+Lemma last_best_rcons acs ac :
+  last_best (rcons acs ac) =
+  if ole (Some ac.2) (last_best acs).1 then (Some ac.2, ac.1) else last_best acs.
+Proof. by rewrite /last_best -cats1 foldl_cat. Qed.
+
+Lemma last_best_spec acs :
+  match last_best acs with
+  | (None, _) => acs = [::]
+  | (Some m, a) => (a, m) \in acs /\ forall ac, ac \in acs -> m <= ac.2
+  end.
+Proof.
+elim/last_ind: acs => [|acs [a c] IH] //; rewrite last_best_rcons /=.
+case: (last_best acs) IH => [[m|] a'] /= IH.
+  case: (leqP c m) => hcm.
+    split; first by rewrite mem_rcons inE eqxx.
+    move=> ac; rewrite mem_rcons inE => /orP[/eqP->//|/(proj2 IH) h].
+    exact: leq_trans hcm h.
+  case: IH => h1 h2; split; first by rewrite mem_rcons inE h1 orbT.
+  move=> ac; rewrite mem_rcons inE => /orP[/eqP->/=|/h2 //].
+  exact: ltnW.
+split; first by rewrite mem_rcons inE eqxx.
+by move=> ac; rewrite IH mem_rcons inE orbF => /eqP->.
+Qed.
+
+Section Alleles.
+Variable I : inst.
+
+Lemma acode_forced q b : acode q b != 3 -> (q != 0) /\ acode q b = nat_of_bool b.
+Proof. by rewrite /acode; case: (q == 0) => //; case: b. Qed.
+
+Theorem alleles_non_tie_forced c x t v i (h : bool) a :
+  get_alleles I c x t = Some v -> i < i_nind I ->
+  (if h then (nth (0, 0, 0) v i).1.2 else (nth (0, 0, 0) v i).1.1) != 3 ->
+  a \in optimal_assignments I c x t ->
+  (if h then (nth (0, 0, 0) v i).1.2 else (nth (0, 0, 0) v i).1.1) =
+  nat_of_bool (allele_of (h2p_map I t) a i h).
+Proof.
+rewrite /get_alleles /get_alleles_cc /optimal_assignments.
+set k := mk_cc I c t; set acs := assignment_costs k _ x; set hp := k.1.
+have hhp : hp = h2p_map I t by [].
+case hlb: (last_best acs) (last_best_spec acs) => [[m|] astar] //= [hstar hmin] [<-] hi.
+rewrite (nth_map 0) ?size_iota // nth_iota // add0n => hcode /mapP[[a' ca]].
+rewrite mem_filter /= => /andP[/eqP hopt hin] ->.
+have hm : ominl [seq Some ac.2 | ac <- acs] = Some m.
+  exact: (@ominl_min_attained _ (fun ac => ac.2) acs (astar, m) hstar hmin).
+move: hopt; rewrite hm => -[hca]; rewrite -hhp.
+have hbest ac : ac \in acs -> ac.2 = m ->
+    best_for hp acs i h (allele_of hp ac.1 i h) = Some m.
+  move=> hac hc; rewrite /best_for -hc.
+  apply: (@ominl_min_attained _ (fun ac => ac.2) [seq ac0 <- acs | allele_of hp ac0.1 i h == allele_of hp ac.1 i h] ac).
+    by rewrite mem_filter eqxx.
+  by move=> b; rewrite mem_filter hc => /andP[_ /hmin].
+have h1 := hbest _ hstar (erefl _); have h2 := hbest _ hin hca; rewrite /= in h1 h2.
+have hq : quality (best_for hp acs i h false) (best_for hp acs i h true) != 0 ->
+          allele_of hp astar i h = allele_of hp a' i h.
+  move: h1 h2; case: (allele_of hp astar i h); case: (allele_of hp a' i h) => // -> -> /=;
+  by rewrite subnn.
+by case: h hcode hq {hbest h1 h2} => /= /acode_forced[hq0 ->] /(_ hq0) ->.
+Qed.
+End Alleles.
+
+(* ------------------------------------------------------------------ the shared-precomputation evaluator *)
+Lemma opt_fastE I : opt_fast I = opt_spec I.
+Proof.
+rewrite /opt_fast /opt_spec /cost_of; congr ominl; apply: eq_map => beta /=; congr ominl.
+apply/eq_in_map => tau; rewrite mem_tuples => /andP[/eqP hsz /all_nthP hall].
+congr oaddl; apply/eq_in_map => c; rewrite mem_iota add0n /= => hc.
+have htc : nth 0 tau c < nT I by apply: hall; rewrite hsz.
+rewrite -!map_comp /term.
+rewrite (nth_map 0) ?size_iota // nth_iota // add0n /=.
+rewrite (nth_map 0) ?size_iota // nth_iota // add0n /= -map_comp.
+rewrite (nth_map 0) ?size_iota // nth_iota // add0n /=.
+Qed.
+
+(* ------------------------------------------------------------------ readable characterisations *)
+Section Readable.
+Variable I : inst.
+
+(* local_cost is the minimum, over the allele assignments admitted by the genotypes, of
+   genotype cost + weight of the entries that disagree with the allele of their partition *)
+Lemma local_cost_lower c x t a g :
+  (a, g) \in allowed I c t ->
+  ole (local_cost I c x t) (Some (g + flip_cost (h2p_map I t) (colents I c) x a)).
+Proof.
+move=> h; rewrite /local_cost /lcost /assignment_costs -map_comp.
+by apply: ole_ominl_mem; apply/mapP; exists (a, g).
+Qed.
+
+Lemma local_cost_attained c x t v :
+  local_cost I c x t = Some v ->
+  exists a g, (a, g) \in allowed I c t /\ v = g + flip_cost (h2p_map I t) (colents I c) x a.
+Proof.
+rewrite /local_cost /lcost /assignment_costs -map_comp => h.
+case: (ominl_mem [seq (Some \o (fun ac => ac.2) \o (fun ag => (ag.1, ag.2 + flip_cost (mk_cc I c t).1 (colents I c) x ag.1))) a | a <- (mk_cc I c t).2]).
+  by rewrite h.
+by rewrite h => /mapP[[a g] hin /= [->]]; exists a, g.
+Qed.
+
+Lemma allowedP c t a g :
+  (a, g) \in allowed I c t <->
+  a \in assignments I /\ geno_cost I (h2p_map I t) (nth [::] (i_geno I) c) a = Some g.
+Proof.
+rewrite /allowed /mk_cc /= mem_pmap; split.
+  case/mapP => a' ha'; case e: (geno_cost _ _ _ a') => [g'|] //= [-> ->].
+  by split.
+by case=> ha hg; apply/mapP; exists a => //; rewrite hg.
+Qed.
+
+(* without a Mendelian conflict some solution has finite cost *)
+Lemma oaddl_some (s : seq (option nat)) : all isSome s -> isSome (oaddl s).
+Proof. by elim: s => [|[a|] s IH] //= /IH; case: (oaddl s). Qed.
+
+Lemma opt_finite : no_conflict I -> exists v, opt_spec I = Some v.
+Proof.
+move=> hnc.
+pose tau := [seq find (fun t => allowed I c t != [::]) (ts I) | c <- iota 0 (i_ncols I)].
+pose beta := nseq (nreads I) false.
+have htau c : c < i_ncols I -> nth 0 tau c < nT I /\ allowed I c (nth 0 tau c) != [::].
+  move=> hc; rewrite (nth_map 0) ?size_iota // nth_iota // add0n.
+  move/allP: hnc => /(_ c); rewrite mem_iota add0n => /(_ hc) hh.
+  have := hh; rewrite has_find size_iota => hf; split=> //.
+  by have := nth_find 0 hh; rewrite nth_iota // add0n.
+have hfin : isSome (cost_of I beta tau).
+  rewrite /cost_of; apply: oaddl_some; rewrite all_map; apply/allP => c.
+  rewrite mem_iota add0n /= => hc; rewrite /term.
+  by case: (htau _ hc) => _ /(local_cost_some (restrict (active I c) beta)); case: (local_cost _ _ _ _).
+have := @witness_cost I beta tau.
+rewrite size_nseq size_map size_iota => /(_ erefl erefl).
+have -> : all (fun t => t < nT I) tau.
+  by apply/(all_nthP 0) => c; rewrite size_map size_iota => /htau[].
+move/(_ isT); case: (cost_of _ _ _) hfin => // v _; case: (opt_spec I) => // w _.
+by exists w.
+Qed.
+End Readable.
+
+(* an optimal witness exists (the brute-force minimum is attained) *)
+Lemma opt_attained I v : opt_spec I = Some v ->
+  exists beta tau, [/\ size beta = nreads I, size tau = i_ncols I, all (fun t => t < nT I) tau
+                     & cost_of I beta tau = Some v].
+Proof.
+rewrite /opt_spec => h.
+case: (ominl_mem [seq ominl [seq cost_of I beta tau | tau <- tuples (nT I) (i_ncols I)] | beta <- bvs (nreads I)]).
+  by rewrite h.
+rewrite h => /mapP[beta]; rewrite mem_bvs => /eqP hb hv.
+case: (ominl_mem [seq cost_of I beta tau | tau <- tuples (nT I) (i_ncols I)]); first by rewrite -hv.
+rewrite -hv => /mapP[tau]; rewrite mem_tuples => /andP[/eqP ht ha] hc.
+by exists beta, tau; split.
+Qed.
